@@ -135,6 +135,7 @@ fn main() {
                     "c10" => AnyCase::Hsc(gen::c10_case(run_seed)),
                     "c18" => AnyCase::Hsc(gen::c18_case(run_seed, 0)),
                     "c19a" => AnyCase::Hsc(gen::c19a_case(run_seed)),
+                    "c16h" => AnyCase::Hsc(gen::c16h_case(run_seed)),
                     "c04" => AnyCase::Hsc(gen::c18_case(run_seed, 1)),
                     "c15p" => AnyCase::Conc(gen::c15_persist(run_seed)),
                     "c15e" => AnyCase::Conc(gen::conc_engine(run_seed, 0)),
